@@ -13,7 +13,7 @@ class A(Adapter):
     serves = {"C01", "C04", "C05", "C07", "C08", "C09", "C10", "C11", "C12"}
     terminate_on_invalid = True
     max_steps = 110
-    ops = ("state", "step", "judge", "instance")
+    ops = ("state", "step", "judge", "instance", "bounds")
     state_fields = ["board", "step_count", "flat_mine_locations"]
 
     def configs(self, tier):
